@@ -25,7 +25,13 @@ package util
 import (
 	"fmt"
 	"sort"
+	"strconv"
 	"strings"
+	"sync"
+
+	corev1 "k8s.io/api/core/v1"
+
+	"github.com/koordinator-sh/koordinator/pkg/zzverif/mc"
 )
 
 type c11Task struct {
@@ -59,6 +65,7 @@ type c11Run struct {
 type c11Finding struct {
 	Clause string
 	What   string
+	Task   int // index of the task whose call is judged, -1: none
 }
 
 type c11Counter func(name string, n int64)
@@ -163,33 +170,38 @@ func c11Judge(r *c11Run, count c11Counter) []c11Finding {
 		t := &r.Tasks[k]
 		p := ev.Pod
 		if why := r.Elig(k, p); why != "" {
-			return &c11Finding{"ineligible", fmt.Sprintf("task %s evicts pod %d: %s", t.Name, p, why)}
+			return &c11Finding{"ineligible", fmt.Sprintf("task %s evicts pod %d: %s", t.Name, p, why), k}
 		}
 		if last[k] >= 0 && last[k] != p {
 			count("order_pairs_judged", 1)
 			if ok, why := r.MayPrecede(k, last[k], p); !ok {
-				return &c11Finding{"order", fmt.Sprintf("task %s evicts pod %d before pod %d: %s", t.Name, last[k], p, why)}
+				clause := "order"
+				// "<key level>|<text>": the violated key level becomes part of the class
+				if i := strings.Index(why, "|"); i > 0 {
+					clause, why = "order|"+why[:i], why[i+1:]
+				}
+				return &c11Finding{clause, fmt.Sprintf("task %s evicts pod %d before pod %d: %s", t.Name, last[k], p, why), k}
 			}
 		}
 		if succ[p] {
-			return &c11Finding{"twice|same-round", fmt.Sprintf("task %s evicts pod %d which was already evicted successfully in this round", t.Name, p)}
+			return &c11Finding{"twice|same-round", fmt.Sprintf("task %s evicts pod %d which was already evicted successfully in this round", t.Name, p), k}
 		}
 		if r.Already[p] {
-			return &c11Finding{"twice|already-evicted-earlier", fmt.Sprintf("task %s evicts pod %d which is already evicted and still terminating", t.Name, p)}
+			return &c11Finding{"twice|already-evicted-earlier", fmt.Sprintf("task %s evicts pod %d which is already evicted and still terminating", t.Name, p), k}
 		}
 		if failedBefore[p] {
 			count("retry_after_failed_eviction", 1)
 		}
 		lazy, released := missing(t, false)
 		if cl, what := c11NeedVerdict(r, t, lazy, p, count); cl != "" {
-			return &c11Finding{cl, fmt.Sprintf("task %s evicts pod %d: %s", t.Name, p, what)}
+			return &c11Finding{cl, fmt.Sprintf("task %s evicts pod %d: %s", t.Name, p, what), k}
 		}
 		if released {
 			count("needed_judged_after_partial_release", 1)
 		}
 		strict, _ := missing(t, true)
 		if cl, what := c11NeedVerdict(r, t, strict, p, nil); cl != "" {
-			return &c11Finding{cl + "|pending-release-later-in-list", fmt.Sprintf("task %s evicts pod %d although pods of its own list that are already evicted and still terminating were not counted yet: %s", t.Name, p, what)}
+			return &c11Finding{cl + "|pending-release-later-in-list", fmt.Sprintf("task %s evicts pod %d although pods of its own list that are already evicted and still terminating were not counted yet: %s", t.Name, p, what), k}
 		}
 		return nil
 	}
@@ -205,7 +217,7 @@ func c11Judge(r *c11Run, count c11Counter) []c11Finding {
 		}
 		count("evict_calls_judged", 1)
 		if ev.Pod < 0 || ev.Pod >= n {
-			out = append(out, c11Finding{"ineligible", "Evict called for a pod that is not among the node's pods"})
+			out = append(out, c11Finding{"ineligible", "Evict called for a pod that is not among the node's pods", -1})
 			continue
 		}
 		cands := []int{ev.Task}
@@ -333,7 +345,7 @@ func c11Judge(r *c11Run, count c11Counter) []c11Finding {
 					count("account_dimensions_judged_nonzero", 1)
 				}
 				if got > bound {
-					out = append(out, c11Finding{"account-exceeds-victims", fmt.Sprintf("returned release of %s/%s is %d but the successfully evicted and the already-evicted pods free only %d", t.Type, res, got, bound)})
+					out = append(out, c11Finding{"account-exceeds-victims", fmt.Sprintf("returned release of %s/%s is %d but the successfully evicted and the already-evicted pods free only %d", t.Type, res, got, bound), -1})
 				}
 			}
 		}
@@ -379,4 +391,81 @@ func c11ExploreFailures(f func(fails []bool) int) (runs int) {
 	}
 	rec(nil)
 	return runs
+}
+
+// c11Exec is the recording / failing EvictionExecutor. Pods are named "p<index>".
+type c11Exec struct {
+	tasks   []c11Task
+	already []bool
+	fails   []bool
+	calls   int
+	events  []c11Event
+}
+
+func c11PodIndex(pod *corev1.Pod) int {
+	if pod == nil || len(pod.Name) < 2 {
+		return -1
+	}
+	i, err := strconv.Atoi(pod.Name[1:])
+	if err != nil {
+		return -1
+	}
+	return i
+}
+
+func (e *c11Exec) Evict(pod *corev1.Pod, node *corev1.Node, releaseReason string, message string) bool {
+	i := c11PodIndex(pod)
+	fail := e.calls < len(e.fails) && e.fails[e.calls]
+	e.calls++
+	ok := !fail
+	if i >= 0 && i < len(e.already) && e.already[i] {
+		ok = true // like Evictor.EvictPodIfNotEvicted: an already evicted pod reports success
+	}
+	e.events = append(e.events, c11Event{Evict: true, Pod: i, Task: c11TaskOfMessage(e.tasks, message), OK: ok})
+	return ok
+}
+
+func (e *c11Exec) IsPodEvicted(pod *corev1.Pod) bool {
+	i := c11PodIndex(pod)
+	ok := i >= 0 && i < len(e.already) && e.already[i]
+	e.events = append(e.events, c11Event{Evict: false, Pod: i, Task: -1, OK: ok})
+	return ok
+}
+
+func c11EvictsOnly(ev []c11Event) []string {
+	var out []string
+	for _, e := range ev {
+		if e.Evict {
+			r := "ok"
+			if !e.OK {
+				r = "FAILED"
+			}
+			out = append(out, fmt.Sprintf("Evict(p%d)@task%d:%s", e.Pod, e.Task, r))
+		} else if e.OK {
+			out = append(out, fmt.Sprintf("IsPodEvicted(p%d)=true", e.Pod))
+		}
+	}
+	return out
+}
+
+// c11Reporter stores the first witnesses of every violation class and only counts the rest (formatting a witness
+// is far more expensive than executing a case).
+type c11Reporter struct {
+	mu   sync.Mutex
+	seen map[string]int
+}
+
+func (r *c11Reporter) Report(res *mc.Result, l *mc.Local, key string, mk func() (what string, replay any)) {
+	r.mu.Lock()
+	if r.seen == nil {
+		r.seen = map[string]int{}
+	}
+	r.seen[key]++
+	n := r.seen[key]
+	r.mu.Unlock()
+	l.Count("violations["+key+"]", 1)
+	if n <= 3 {
+		what, replay := mk()
+		res.Violate(mc.Violation{Key: key, What: what, Replay: replay})
+	}
 }
